@@ -116,6 +116,8 @@ def scenario(desc):
             c.auto_points = on_hit
             env = s.env(c.env(points=["slot.", "run.", "result.", "pointer."]))
             victim_args = ["run", "-c", "build"] if detected else ["run", "-c", "build", "-t", "a", "b", "c", "--deps"]
+            if desc.get("victim") == "two-commands":
+                victim_args = ["run", "-c", "build", "build", "-t", "a", "b", "c", "--deps"]   # the command given twice: six executions
             argv_, cwd_ = r.cmdline(*victim_args)
             p = c.spawn("victim", argv_, cwd_, env)
             t_end = time.time() + 30
@@ -226,6 +228,11 @@ def scenarios(tier):
     for st in KILL_STATES:
         out.append({"max": 2, "prefix": 1, "listener": True, "crash": {"kind": "kill", "state": list(st)}})
         out.append({"max": 10, "prefix": 10, "crash": {"kind": "kill", "state": list(st)}})
+    # a victim that executes its command twice (six children): crash points are hit in the second pass too
+    for name in POINTS:
+        out.append({"max": 2, "prefix": 1, "victim": "two-commands", "crash": {"kind": "point", "name": name}})
+    for st in [(4, 3), (6, 5)]:
+        out.append({"max": 2, "prefix": 1, "victim": "two-commands", "crash": {"kind": "kill", "state": list(st)}})
     # everything invoked from an unrelated directory
     for name in POINTS:
         out.append({"max": 2, "prefix": 1, "foreign": True, "crash": {"kind": "point", "name": name}})
